@@ -60,6 +60,8 @@ def analyze(scenario, log):
     pool_held = [collections.defaultdict(int) for _ in objs["pool"]]
     pool_changes = [[] for _ in objs["pool"]]
     pool_unknown = [False for _ in objs["pool"]]
+    buf_traj_unknown = [False for _ in objs["buf"]]
+    buf_changes = [[] for _ in objs["buf"]]
     buf_unknown = [False for _ in objs["buf"]]
     buf_put = [0 for _ in objs["buf"]]
     buf_got = [0 for _ in objs["buf"]]
@@ -79,11 +81,24 @@ def analyze(scenario, log):
     end_events = []                    # (pid, time, log index)
     cur_li = [0]
     csigs = []                         # (cond, time, log index, [(waiter pid, predicate true?, determinable)])
+    fwd_expect = []                    # (cond, waiter, time, log index): a forwarded signal must wake this single waiter
     flags_now = collections.defaultdict(int)
     dequeued = set()
     prev_call = [None]                 # pid whose call line was the previous log line (an immediate return follows directly)
     varh = {}                          # (pid or -1 for shared, var) -> handle string
     started = set()
+
+
+    def on_res_freed(r, t):
+        # conditions observing this resource's guard are signalled; with exactly ONE waiter whose (flag) predicate is true
+        # the known front-only behaviour of forwarded signals cannot matter: that waiter must be resumed in this instant
+        for (c, kd, ix, wh) in objs["subs"]:
+            if kd == 0 and ix == r:
+                ws = [(q, oc) for q, oc in open_call.items() if oc[2][0] == "cwait" and int(oc[2][1]) == c and q not in dequeued]
+                if len(ws) == 1:
+                    q, oc = ws[0]
+                    if int(oc[2][2]) == 0 and flags_now[int(oc[2][3])] != 0:
+                        fwd_expect.append((c, q, t, cur_li[0], r))
 
     def proc_ended(q, t, how):
         if q in ended:
@@ -98,6 +113,7 @@ def analyze(scenario, log):
             if holder[r] == q:
                 holder[r] = None
                 res_changes[r].append((t, 0))
+                on_res_freed(r, t)
         for pl in range(len(pool_exp)):
             pool_exp[pl][q] = 0
             pool_exp_unknown[pl].discard(q)
@@ -111,6 +127,7 @@ def analyze(scenario, log):
         oc_ = open_call.pop(q, None)
         if oc_ is not None and oc_[2][0] in ("bget", "bput") and int(oc_[2][1]) < len(buf_unknown):
             buf_unknown[int(oc_[2][1])] = True   # partial transfers of a call that never returns are not in the log
+            buf_traj_unknown[int(oc_[2][1])] = True
 
     instant = [-10 ** 18]
     freed_mark = [0] * objs["res"]
@@ -197,6 +214,7 @@ def analyze(scenario, log):
             if oc is None or oc[0] != pc:
                 continue
             t0, cmd = oc[1], oc[2]
+            immediate = immediate and t == t0
             op = cmd[0]
             a = [int(x) for x in cmd[1:]]
             if op in ("acq", "pre"):
@@ -330,6 +348,7 @@ def analyze(scenario, log):
                 if holder[a[0]] == pid:
                     holder[a[0]] = None
                     res_changes[a[0]].append((t, 0))
+                    on_res_freed(a[0], t)
             # ---------------- C07 accounting ----------------
             if op in ("pacq", "ppre") and a[0] < len(pool_exp):
                 if val == 0:
@@ -358,14 +377,21 @@ def analyze(scenario, log):
                 pool_held[a[0]][pid] -= a[1]
                 pool_changes[a[0]].append((t, sum(pool_held[a[0]].values())))
             # ---------------- C11 ----------------
+            if op in ("bput", "bget") and a[0] < len(buf_put):
+                if not immediate:
+                    buf_traj_unknown[a[0]] = True     # partial transfers inside a blocked call happen at times the log does not show
             if op == "bput" and a[0] < len(buf_put):
                 left = int(extra.get("amt", 0))
                 buf_put[a[0]] += a[1] - left
+                if a[1] - left > 0:
+                    buf_changes[a[0]].append((t, buf_put[a[0]] - buf_got[a[0]]))
                 if val == 0 and left != 0:
                     bad("C11", "buffer put of %d by process %d returned SUCCESS with %d not transferred" % (a[1], pid, left))
             if op == "bget" and a[0] < len(buf_got):
                 got = int(extra.get("amt", 0))
                 buf_got[a[0]] += got
+                if got > 0:
+                    buf_changes[a[0]].append((t, buf_put[a[0]] - buf_got[a[0]]))
                 if val == 0 and got != a[1]:
                     bad("C11", "buffer get of %d by process %d returned SUCCESS with amount %d" % (a[1], pid, got))
                 if got > a[1]:
@@ -557,6 +583,50 @@ def analyze(scenario, log):
         if all(k for (_, _, k) in ws) and ws and per_instant[(c, t)] == 1:
             if (v == 1) != any(sat for (_, sat, _) in ws):
                 bad("C13", "condition %d signal at t=%d returned %d but %d waiters had a true predicate" % (c, t, v, sum(1 for x in ws if x[1])))
+    for (c, q, t, li0, r) in fwd_expect:
+        nxt = [x for x in rets[q] if x[0] > li0]
+        if not nxt or nxt[0][1] != t:
+            bad("C13", "resource %d was released at t=%d; condition %d observes it and its only waiter, process %d, had a true "
+                "predicate, but it was not resumed at that time (the forwarded signal did not reach the condition)" % (r, t, c, q))
+    # ---------------- C06: full service order on resources without barging (priority, then entry time, then process) ----------------
+    barged = set()
+    for g in res_waits:
+        if g[7] and g[6] == 0:       # an immediate successful acquire ...
+            for q in res_waits:
+                if q[1] == g[1] and q[0] != g[0] and not q[7] and q[3] < g[3] and (q[4] is None or q[4] > g[3]):
+                    barged.add(g[1])  # ... while somebody else was waiting: a granted waiter may lose the race and start a new wait
+    pre_used = {int(l.split()[5]) for l in log if l.startswith("c ") and len(l.split()) > 5 and l.split()[4] == "pre"}
+
+    def prio_at(q, idx):
+        v = prio[q]
+        for (i, x) in prio_hist[q]:
+            if i <= idx:
+                v = x
+        return v
+
+    def prio_changed_at_time(q, tt):
+        for (i, x) in prio_hist[q]:
+            if i >= 0:
+                w_ = log[i].split()
+                if int(w_[3]) == tt:
+                    return True
+        return False
+    for g in res_waits:
+        pid, r, t0, ci, ri, rt, val, imm = g
+        if ri is None or ri >= 10 ** 9 or val != 0 or imm or r in barged or r in pre_used:
+            continue
+        if prio_changed_at_time(pid, rt):
+            continue
+        for q in res_waits:
+            qp, qr, qt0, qci, qri, qrt, qval, qimm = q
+            if qp == pid or qr != r or qimm or prio_changed_at_time(qp, rt):
+                continue
+            if not (qt0 < rt and qci < ri and (qri is None or (qrt is not None and qrt > rt))):
+                continue
+            pp_, pq_ = prio_at(pid, ri), prio_at(qp, ri)
+            if pq_ == pp_ and (qt0, qp) < (t0, pid):
+                bad("C06", "resource %d was granted at t=%d to process %d (priority %d, waiting since t=%d) while process %d of the same "
+                    "priority had been waiting longer (since t=%d) and kept waiting" % (r, rt, pid, pp_, t0, qp, qt0))
     # ---------------- C06: no overtaking on a resource's waiting list (static priorities only) ----------------
     for g in res_waits:
         pid, r, t0, ci, ri, rt, val, imm = g
@@ -576,7 +646,7 @@ def analyze(scenario, log):
         ts = [t for (_, t) in h]
         if any(ts[i] > ts[i + 1] for i in range(len(ts) - 1)):
             bad("C14", "history of %s %d: sample times decrease: %s" % (kind, idx, h))
-        changes = {"res": res_changes, "oq": oq_changes, "pq": pq_changes, "pool": pool_changes}.get(kind)
+        changes = {"res": res_changes, "oq": oq_changes, "pq": pq_changes, "pool": pool_changes, "buf": buf_changes}.get(kind)
         kcode = {"res": 0, "pool": 1, "buf": 2, "oq": 3, "pq": 4}[kind]
         if changes is None or idx >= len(changes):
             continue
@@ -584,27 +654,43 @@ def analyze(scenario, log):
             continue
         if kind == "pool" and (pool_unknown[idx] or any(c[2][0] in ("pacq", "ppre") and int(c[2][1]) == idx for c in open_call.values())):
             continue
-        # expected samples: state at start, every change while recording, state at stop
-        exp = []
-        def state_at(t, inclusive):
+        if kind == "buf" and (buf_traj_unknown[idx] or any(c[2][0] in ("bget", "bput") and int(c[2][1]) == idx for c in open_call.values())):
+            continue
+
+        def state_before(t):
             v = 0
             for (tc, x) in changes[idx]:
-                if tc < t or (inclusive and tc == t):
+                if tc < t:
                     v = x
             return v
         windows = rec.get((kcode, idx), [])
-        if len(windows) != 1:
-            continue        # keep it unambiguous: exactly one recording window
-        t1, t2 = windows[0]
-        same_instant = [x for (tc, x) in changes[idx] if tc == t1 or (t2 is not None and tc == t2)]
-        if same_instant:
-            continue        # changes in the very instant recording is toggled: order not determined by the log alone
-        exp.append((state_at(t1, False), t1))
-        for (tc, x) in changes[idx]:
-            if tc > t1 and (t2 is None or tc < t2):
-                exp.append((x, tc))
-        if t2 is not None:
-            exp.append((state_at(t2, False), t2))
-        if h != exp:
+        if not windows:
+            continue
+        toggles = [w_[0] for w_ in windows] + [w_[1] for w_ in windows if w_[1] is not None]
+        if len(set(toggles)) != len(toggles) or any(tc in toggles for (tc, x) in changes[idx]):
+            continue        # state changes or several toggles in the very instant recording is toggled: order not determined by the log
+        if any(windows[i][1] is None for i in range(len(windows) - 1)):
+            continue        # a start while already recording
+        exp = []
+        for (t1, t2) in windows:
+            exp.append((state_before(t1), t1))
+            for (tc, x) in changes[idx]:
+                if tc > t1 and (t2 is None or tc < t2):
+                    exp.append((x, tc))
+            if t2 is not None:
+                exp.append((state_before(t2), t2))
+        if windows[-1][1] is not None and h and h[-1][1] != windows[-1][1]:
+            bad("C14", "history of %s %d ends at t=%d but recording was stopped at t=%d" % (kind, idx, h[-1][1], windows[-1][1]))
+
+        def step_fn(samples):
+            # the step function a history defines: samples that repeat the previous value add nothing (a get of 0 units
+            # records one); the last sample fixes the end of the recorded interval
+            out_ = []
+            for i_, (x_, t_) in enumerate(samples):
+                if out_ and out_[-1][0] == x_:
+                    continue
+                out_.append((x_, t_))
+            return out_
+        if step_fn(h) != step_fn(exp):
             bad("C14", "history of %s %d is %s but the true trajectory while recording was %s" % (kind, idx, h, exp))
     return dict(V)
